@@ -53,4 +53,9 @@ Section Build.
 
   Theorem build_imports_selected self y : In self (sel rst) -> In y (imports_postorder (sel rst) (provby rst) self) -> In y (sel rst).
   Proof. intros Hs Hy. exact (proj2 (imports_postorder_sound (sel rst) (provby rst) PS self y Hs Hy)). Qed.
+
+  Theorem build_imports_dependencies_first self y z : In self (sel rst) ->
+    In y (imports_postorder (sel rst) (provby rst) self) -> edge (sel rst) (provby rst) y z -> ~ reach (sel rst) (provby rst) z y ->
+    before z y (imports_postorder (sel rst) (provby rst) self).
+  Proof. exact (imports_postorder_dependencies_first (sel rst) (provby rst) PS ND self y z). Qed.
 End Build.
